@@ -11,7 +11,6 @@ READER_CONFIG = {
     "flexible": "records of different lengths are all delivered (a short one is reported by the importer itself)",
     "delimiter": "field separator taken from the configuration",
     "from_reader": "wraps the (head-skipped) input stream",
-    "has_headers": "the first record is the header the field map is built from",
 }
 
 
@@ -26,6 +25,10 @@ def csv_reader(P, chk):
     for x in P.with_closures(CSV_IMPORT):
         for bb, t in x.calls():
             cd = callee_def(t) or ""
+            if cd.startswith("csv::Reader::") and short(cd) in ("read_record", "read_byte_record", "seek", "set_headers", "set_byte_headers", "into_inner"):
+                chk.fail(R_ROWS, "csv::import|records consumed outside the record loop (%s)" % short(cd), x.loc(bb),
+                         "csv::Reader::%s is used directly: records read or replaced here never reach the per-record loop "
+                         "(and the csv crate skips empty lines, so counting `lines` this way is off)" % short(cd))
             if cd.startswith("csv::ReaderBuilder::"):
                 n += 1
                 m = short(cd)
@@ -121,3 +124,53 @@ def record_loop(P, chk, key, label, skip_guards=(), only_if=(), not_record_loops
             chk.require(not badn, R_ROWS, "%s|%s stream unfiltered (loop of push #%d)" % (imp, label, n), b.loc(nb),
                         "the %s are read through %s" % (label, sorted(badn)), "plain iteration: " + ",".join(names[:4]))
     chk.floor("%s: per-record push sites" % imp, n, 1)
+
+
+UNARY = "okane_core::parse::expr::unary_amount"
+
+
+def csv_number_sign(P, chk, rule):
+    """numbers of CSV fields go through expr::unary_amount: an optional leading minus FLIPS the sign of the parsed
+    number; without it the number keeps its own sign (`$-15.00` and `-$15.00` are both negative)"""
+    bodies = P.with_closures(UNARY)
+    for x in bodies:
+        chk.analysed(x)
+    setters = []
+    for x in bodies:
+        for bb, t in x.calls():
+            if short(callee_def(t)) in ("set_sign_positive", "set_sign_negative", "set_sign", "abs", "neg", "negate"):
+                setters.append((x, bb, t))
+    ok = len(setters) == 1
+    detail = "expected exactly one sign operation in unary_amount, found %s" % [short(callee_def(t)) for x, bb, t in setters]
+    if ok:
+        x, bb, t = setters[0]
+        nm = short(callee_def(t))
+        gated = any(short(cn) == "is_some" and lab is True and x.local_name(q.named_local(x, ct["args"][0]) or 0) == "negate"
+                    for cn, lab, ct in q.guard_calls(x, bb))
+        flips = nm in ("neg", "negate")
+        if nm in ("set_sign_positive", "set_sign_negative"):
+            rs = prov(x, t["args"][1])
+            recv = q.named_local(x, t["args"][0])
+            flips = bool(rs) and all(r.kind == "call" and short(r.name) in ("is_sign_positive", "is_sign_negative") and "not" in r.via
+                                     and short(r.name)[8:] == nm[9:] and r.site is not None
+                                     and q.named_local(x, x.term(r.site)["args"][0]) == recv for r in rs)
+        ok = gated and flips
+        detail = "sign operation %s: only under a leading minus=%s, flips the number's own sign=%s" % (nm, gated, flips)
+    chk.require(ok, rule, "expr::unary_amount|a leading minus flips the number's own sign, nothing else touches it", P.body(UNARY).loc(), detail,
+                "if negate.is_some() { value.set_sign_positive(!value.is_sign_positive()) }")
+    # str_to_comma_decimal hands the field to it and returns the parsed value unchanged
+    sc = P.body("okane::import::csv::str_to_comma_decimal")
+    chk.analysed(sc)
+    oks = [(bb, rv) for bb, v, rv in q.ok_err_assignments(sc) if v == "Ok"]
+    good = False
+    for bb, rv in oks:
+        rs = prov(sc, rv["fields"][0]["op"])
+        for r in rs:
+            if r.kind == "agg" and r.name.endswith("Option::Some") and r.site is not None:
+                for st in sc.blocks[r.site]["stmts"]:
+                    if st["k"] == "assign" and st["rv"]["k"] == "aggregate" and st["rv"].get("variant") == "Some":
+                        inner = prov(sc, st["rv"]["fields"][0]["op"])
+                        if inner and all(y.fields[-2:] == ("value", "value") and not (set(y.via) - {"?", "φ"}) for y in inner):
+                            good = True
+    chk.require(good, rule, "csv::str_to_comma_decimal|returns the parsed number unchanged", sc.loc(),
+                "the value handed back is not the parsed amount's own number", "Ok(Some(a.value.value))")
